@@ -1,38 +1,51 @@
 #!/bin/sh
-# Runs the registered quick checks of every property against one or more seeded changes
-# (/verif/seeded/<id>/patch.diff): applies the patch to /repo, runs the checker with a scratch
-# evidence directory, and undoes the patch straight afterwards. Never commits to /repo.
-# usage: seeded_run.sh <id>...   (default: all)
+# Runs the registered quick checks of every property against seeded changes (/verif/seeded/<id>/patch.diff).
+# Each change is applied to a scratch clone of /repo's HEAD (never to /repo itself, never committed anywhere),
+# the checker is pointed at the clone with a scratch evidence directory, and the clone is reset afterwards.
+# Several clones work in parallel. usage: seeded_run.sh [-j N] <id>...   (default: all, 4 jobs)
 export GOFLAGS=-mod=mod GOPROXY=off GOSUMDB=off GOTOOLCHAIN=local GOWORK=off
 V=/verif
-[ $# -eq 0 ] && set -- $(ls $V/seeded | sort)
-if [ -n "$(git -C /repo status --porcelain)" ]; then echo "/repo is not clean" >&2; exit 2; fi
-SV=$(mktemp -d /tmp/seeded-verif.XXXXXX)
-ln -s $V/known_findings.json $SV/known_findings.json
-ln -s $V/mutants $SV/mutants
-trap 'git -C /repo checkout -- . ; rm -rf "$SV"' EXIT INT TERM
-rc=0
-for id in "$@"; do
-  d=$V/seeded/$id
-  [ -f $d/patch.diff ] || { echo "$id: no patch.diff"; rc=2; continue; }
-  if ! git -C /repo apply $d/patch.diff 2>$SV/apply.err; then echo "$id: patch does not apply: $(head -1 $SV/apply.err)"; rc=2; continue; fi
-  rm -rf $SV/evidence
-  $V/bin/ggqlcheck -verif $SV -property all -tier quick -no-controls -list > $SV/out.txt 2>&1
-  git -C /repo checkout -- .
-  prop=$(python3 -c "import json;print(json.load(open('$d/meta.json'))['property'])")
-  python3 - $SV/evidence/violations > $d/check_output.txt <<'PY'
+J=4
+if [ "$1" = "-j" ]; then J=$2; shift 2; fi
+[ $# -eq 0 ] && set -- $(ls $V/seeded | grep -v README | sort)
+TOP=$(mktemp -d /tmp/seeded-run.XXXXXX)
+trap 'rm -rf "$TOP"' EXIT INT TERM
+echo "$@" | tr ' ' '\n' > $TOP/ids
+worker() {
+  w=$1
+  C=$TOP/clone$w; SV=$TOP/verif$w
+  git clone -q /repo $C || exit 2
+  mkdir -p $SV; ln -s $V/known_findings.json $SV/known_findings.json; ln -s $V/mutants $SV/mutants
+  n=0
+  while read id; do
+    n=$((n+1)); [ $(( (n-1) % J )) -eq $w ] || continue
+    d=$V/seeded/$id
+    [ -f $d/patch.diff ] || { echo "$id: no patch.diff"; continue; }
+    git -C $C checkout -q -- . ; git -C $C clean -fdq
+    if ! git -C $C apply $d/patch.diff 2>$SV/apply.err; then echo "$id: patch does not apply: $(head -1 $SV/apply.err)"; continue; fi
+    rm -rf $SV/evidence
+    $V/bin/ggqlcheck -repo $C -verif $SV -property all -tier quick -no-controls -list > $SV/out.txt 2>&1
+    prop=$(python3 -c "import json;print(json.load(open('$d/meta.json'))['property'])")
+    python3 - $SV/evidence/violations $C > $d/check_output.txt <<'PY'
 import json,glob,sys
 rows=[]
 for f in sorted(glob.glob(sys.argv[1]+'/*.json')):
     v=json.load(open(f))
+    if 'rule' not in v: continue
     rows.append("%-9s %-10s %-13s %s | %s | %s"%(v.get('status','violated'),v['property'],v['rule'],v['construct'],v.get('pos',''),(v.get('detail') or '')[:220]))
 print("\n".join(sorted(rows)))
 PY
-  grep -v "^  " $SV/out.txt | grep -E "cannot|CONTROL|panic" | cut -c 1-300 >> $d/check_output.txt
-  own=$(grep -c "^VIOLATION property=$prop " $SV/out.txt)
-  others=$(grep "^VIOLATION property=" $SV/out.txt | grep -vc "^VIOLATION property=$prop ")
-  und=$(grep -c "^undecided" $d/check_output.txt)
-  if [ "$own" -gt 0 ]; then v=DETECTED; else v=MISSED; rc=1; fi
-  echo "$id property=$prop $v own-rule-reports=$own other-property-reports=$others undecided=$und"
-done
-exit $rc
+    grep -v "^  " $SV/out.txt | grep -E "cannot|CONTROL|panic" | cut -c 1-300 >> $d/check_output.txt
+    own=$(grep -c "^VIOLATION property=$prop " $SV/out.txt)
+    others=$(grep "^VIOLATION property=" $SV/out.txt | grep -vc "^VIOLATION property=$prop ")
+    und=$(grep -c "^undecided" $d/check_output.txt)
+    if [ "$own" -gt 0 ]; then v=DETECTED; else v=MISSED; fi
+    echo "$id property=$prop $v own-rule-reports=$own other-property-reports=$others undecided=$und"
+  done < $TOP/ids
+}
+w=0
+while [ $w -lt $J ]; do worker $w > $TOP/out$w 2>&1 & w=$((w+1)); done
+wait
+cat $TOP/out* | sort
+grep -c MISSED $TOP/out* >/dev/null 2>&1
+exit 0
